@@ -527,6 +527,12 @@ class CFG:
                 productions.append(
                     Production(new_variables_d_local[production.head],
                                body))
+            if cfg.start_symbol not in new_variables_d_local:
+                # No start symbol: the grammar generates nothing
+                temp = Variable(str(cfg.start_symbol) + SUBS_SUFFIX + str(idx))
+                new_variables_d_local[cfg.start_symbol] = temp
+                new_vars.add(temp)
+                idx += 1
             final_replacement[ter] = new_variables_d_local[cfg.start_symbol]
             terminals = terminals.union(cfg.terminals)
         for production in self._productions:
@@ -540,7 +546,7 @@ class CFG:
                     body.append(cfgobj)
             productions.append(Production(new_variables_d[production.head],
                                           body))
-        return CFG(new_vars, None, new_variables_d[self._start_symbol],
+        return CFG(new_vars, None, new_variables_d.get(self._start_symbol),
                    set(productions))
 
     def union(self, other: "CFG") -> "CFG":
